@@ -352,7 +352,11 @@ func (r *DeviceLocal) ProcessCmd(datagram model.DatagramType, remoteDevice api.D
 
 	if localFeature == nil {
 		errorMessage := "invalid feature address"
-		_ = remoteFeature.Device().Sender().ResultError(message.RequestHeader, destAddr, model.NewErrorType(model.ErrorNumberTypeDestinationUnknown, errorMessage))
+
+		// Don't send error responses for incoming result messages
+		if message.CmdClassifier != model.CmdClassifierTypeResult {
+			_ = remoteFeature.Device().Sender().ResultError(message.RequestHeader, destAddr, model.NewErrorType(model.ErrorNumberTypeDestinationUnknown, errorMessage))
+		}
 
 		return errors.New(errorMessage)
 	}
